@@ -199,6 +199,14 @@ def probe(ctx):
             if rng.random() < p or ('cayley' in c['name'] and ',r,' in c['name']) or 'weight=' in c['name']:
                 keep.append(c)
         cfgs = keep
+    # regression corpus /verif/corpus/C02/*.json: configurations of repaired defects are always probed (both tiers, every seed)
+    import glob, json, os
+    must = set()
+    for f in sorted(glob.glob(os.path.join(common.VERIF, 'corpus', 'C02', '*.json'))):
+        must |= {e['name'] for e in json.load(open(f))['entries'] if e.get('kind') == 'rank'}
+    have = {c['name'] for c in cfgs}
+    cfgs = [c for c in configs(dims) if c['name'] in must and c['name'] not in have] + cfgs
+    ctx.extra['corpus_configurations'] = sorted(must)
     ml = model_lines(cfgs)       # expected rank = the Lean model's Count.* (theorems count_*), NOT a formula re-typed in the harness
     ambiguous = 0
     for c, m_ in zip(cfgs, ml):
